@@ -1,8 +1,9 @@
 // run.go — executes one input on real gorm: DryRun under the '?' dummy dialector and under a
 // '$n' dummy dialector, and for real on SQLite through the recording driver.
-package main
+package cgen
 
 import (
+	"database/sql"
 	"database/sql/driver"
 	"errors"
 	"fmt"
@@ -43,13 +44,13 @@ type Fin struct {
 func (f Fin) Coq() string {
 	switch f.K {
 	case "find":
-		return lib.App("FFind", coqList(f.L))
+		return lib.App("FFind", CoqList(f.L))
 	case "first":
-		return lib.App("FFirst", coqList(f.L))
+		return lib.App("FFirst", CoqList(f.L))
 	case "take":
-		return lib.App("FTake", coqList(f.L))
+		return lib.App("FTake", CoqList(f.L))
 	case "last":
-		return lib.App("FLast", coqList(f.L))
+		return lib.App("FLast", CoqList(f.L))
 	case "count":
 		return "FCount"
 	case "pluck":
@@ -57,23 +58,23 @@ func (f Fin) Coq() string {
 	case "update":
 		return lib.App("FUpdate", lib.Str(f.S), f.X.Coq())
 	case "updates_map":
-		return lib.App("FUpdatesMap", coqList(f.L))
+		return lib.App("FUpdatesMap", CoqList(f.L))
 	case "updates_struct":
-		return lib.App("FUpdatesStruct", coqList(f.L))
+		return lib.App("FUpdatesStruct", CoqList(f.L))
 	case "delete":
-		return lib.App("FDelete", coqList(f.L))
+		return lib.App("FDelete", CoqList(f.L))
 	case "create_struct":
-		return lib.App("FCreateStruct", coqList(f.L))
+		return lib.App("FCreateStruct", CoqList(f.L))
 	case "create_slice":
-		return lib.App("FCreateSlice", coqList(f.L))
+		return lib.App("FCreateSlice", CoqList(f.L))
 	case "create_map":
-		return lib.App("FCreateMap", coqList(f.L))
+		return lib.App("FCreateMap", CoqList(f.L))
 	case "create_maps":
-		return lib.App("FCreateMaps", coqList(f.L))
+		return lib.App("FCreateMaps", CoqList(f.L))
 	case "raw":
-		return lib.App("FRaw", lib.Str(f.S), coqList(f.L))
+		return lib.App("FRaw", lib.Str(f.S), CoqList(f.L))
 	case "exec":
-		return lib.App("FExec", lib.Str(f.S), coqList(f.L))
+		return lib.App("FExec", lib.Str(f.S), CoqList(f.L))
 	}
 	panic("fin " + f.K)
 }
@@ -146,7 +147,7 @@ func canon(v interface{}) Sc {
 	return Sc{K: "str", S: fmt.Sprintf("<opaque %T>", v)}
 }
 
-func canonAll(vs []interface{}) []Sc {
+func CanonAll(vs []interface{}) []Sc {
 	out := make([]Sc, len(vs))
 	for i, v := range vs {
 		out[i] = canon(v)
@@ -155,7 +156,7 @@ func canonAll(vs []interface{}) []Sc {
 }
 
 // finish runs the finisher on the built chain and returns the resulting *gorm.DB.
-func (g gctx) finish(tx *gorm.DB, f Fin) *gorm.DB {
+func (g Gctx) Finish(tx *gorm.DB, f Fin) *gorm.DB {
 	switch f.K {
 	case "find":
 		var dst []Item
@@ -210,21 +211,21 @@ func (g gctx) finish(tx *gorm.DB, f Fin) *gorm.DB {
 }
 
 // dry runs the input on a DryRun handle and returns Statement.SQL / Vars.
-func dry(db *gorm.DB, in Input) (o Obs) {
+func Dry(db *gorm.DB, in Input) (o Obs) {
 	defer func() {
 		if r := recover(); r != nil {
 			o.Err = fmt.Sprint("panic: ", r)
 		}
 	}()
-	g := gctx{db: db.Session(&gorm.Session{})}
+	g := NewGctx(db.Session(&gorm.Session{}))
 	var tx *gorm.DB
 	if in.Fin.K == "raw" || in.Fin.K == "exec" {
-		tx = g.finish(g.db, in.Fin)
+		tx = g.Finish(g.db, in.Fin)
 	} else {
-		tx = g.finish(g.chain(g.handle(in.TI), in.Chain), in.Fin)
+		tx = g.Finish(g.chain(g.handle(in.TI), in.Chain), in.Fin)
 	}
 	o.SQL = tx.Statement.SQL.String()
-	o.Vars = canonAll(tx.Statement.Vars)
+	o.Vars = CanonAll(tx.Statement.Vars)
 	if tx.Error != nil {
 		o.Err = tx.Error.Error()
 	}
@@ -233,7 +234,7 @@ func dry(db *gorm.DB, in Input) (o Obs) {
 
 // real runs the input on SQLite inside a transaction that is rolled back, and returns the text
 // and arguments of the first statement the driver received.
-func realRun(db *gorm.DB, rec *recdrv.Recorder, in Input) (o Obs) {
+func RealRun(db *gorm.DB, rec *recdrv.Recorder, in Input) (o Obs) {
 	defer func() {
 		if r := recover(); r != nil {
 			o.Err = fmt.Sprint("panic: ", r)
@@ -242,18 +243,18 @@ func realRun(db *gorm.DB, rec *recdrv.Recorder, in Input) (o Obs) {
 	outer := db.Session(&gorm.Session{SkipDefaultTransaction: true}).Begin()
 	defer outer.Rollback()
 	rec.Reset()
-	g := gctx{db: outer}
+	g := NewGctx(outer)
 	var tx *gorm.DB
 	if in.Fin.K == "raw" || in.Fin.K == "exec" {
-		tx = g.finish(g.db, in.Fin)
+		tx = g.Finish(g.db, in.Fin)
 	} else {
-		tx = g.finish(g.chain(g.handle(in.TI), in.Chain), in.Fin)
+		tx = g.Finish(g.chain(g.handle(in.TI), in.Chain), in.Fin)
 	}
 	for _, e := range rec.Snapshot() {
 		o.Ev = append(o.Ev, e.Kind)
 		if (e.Kind == "exec" || e.Kind == "query" || e.Kind == "stmt_exec" || e.Kind == "stmt_query") && o.SQL == "" {
 			o.SQL = e.Query
-			o.Vars = canonAll(e.Args)
+			o.Vars = CanonAll(e.Args)
 			o.Err = e.Err // the driver's verdict on this statement (errors of scanning the rows do not count)
 		}
 	}
@@ -263,19 +264,20 @@ func realRun(db *gorm.DB, rec *recdrv.Recorder, in Input) (o Obs) {
 	return o
 }
 
-type handles struct {
-	q, d *gorm.DB
-	r    *gorm.DB
-	rec  *recdrv.Recorder
+type Handles struct {
+	Q, D *gorm.DB // DryRun: '?' dummy dialector, '$n' dummy dialector
+	R    *gorm.DB // SQLite behind the recording driver
+	Rec  *recdrv.Recorder
+	SQL  *sql.DB
 }
 
-func openHandles() handles {
+func OpenHandles() Handles {
 	cfg := func() *gorm.Config { return &gorm.Config{DryRun: true, Logger: logger.Discard} }
 	q, err := gorm.Open(tests.DummyDialector{}, cfg())
 	lib.Must(err)
 	d, err := gorm.Open(DollarDialector{}, cfg())
 	lib.Must(err)
-	r, rec, _, err := gdb.Open(gdb.Opt{})
+	r, rec, sqlDB, err := gdb.Open(gdb.Opt{})
 	lib.Must(err)
 	lib.Must(r.AutoMigrate(&Item{}))
 	note := "n1"
@@ -285,5 +287,14 @@ func openHandles() handles {
 		{Name: "cid", Code: "c1", Age: 44, Active: true},
 	}
 	lib.Must(r.Create(&seed).Error)
-	return handles{q: q, d: d, r: r, rec: rec}
+	return Handles{Q: q, D: d, R: r, Rec: rec, SQL: sqlDB}
+}
+
+// TwinOf: the same calls with every scalar replaced by a fresh one of the same kind.
+func TwinOf(in Input, r *lib.Rng) Input {
+	fr := &fresher{n: 5000, rng: r}
+	t := in
+	t.Chain = fr.list(in.Chain)
+	t.Fin = in.Fin.twin(fr)
+	return t
 }
